@@ -208,6 +208,14 @@ def correspondence(ctx):
         if time.time() - t0 > ctx.budget(70, 700):
             c.count("stopped-early-at-session", i)
             break
+    unobs = sum(v for k, v in c.distribution.items() if k.startswith("unobservable:"))
+    if unobs * 50 > n_sessions:
+        # the recorder gives up on sessions it cannot map to the model's events; that must stay a rarity, else a changed
+        # rpyc could hide behind it
+        c.disagreements.append(dict(case=dict(kind="history", seed=ctx.seed, index=-1), first_difference=-1,
+                                    impl="%d of %d sessions were not observable: %r" % (
+                                        unobs, n_sessions, sorted((k, v) for k, v in c.distribution.items() if k.startswith("unobservable:"))),
+                                    model="at most 2% of the sessions may be unobservable"))
     ok_sessions = c.distribution.get("self-check:sessions-in-which-the-peer-obtained-two-or-more-references", 0)
     if lines and ok_sessions * 2 < len(lines):
         c.error = ("harness self-check failed: in only %d of %d sessions did the scripted peer obtain references through the "
